@@ -2,6 +2,6 @@
 From Coq Require Import ZArith.
 Module ParamsC01.
 Open Scope Z_scope.
-Definition fifo_links_recorded : Z := 0.
+Definition fifo_links_recorded : Z := 1.
 Definition mode_mask : Z := 2415395327.
 End ParamsC01.
